@@ -9,7 +9,7 @@ from .. import gen
 from ..base import Outcome
 from ..cmp import arrays_match, close, groups_match, tol_for
 from ..codec import dec, unnum
-from ..floxcall import chunked_reduce, eager_reduce, reduce_kwargs
+from ..floxcall import chunked_reduce, eager_reduce, reduce_kwargs, relayout
 from ..ref import ARG_FUNCS
 
 ID = "C02"
@@ -83,7 +83,7 @@ def reduce_cases(draw, tier="quick", funcs=FUNCS, nplans=3, allow_blockwise=True
     if not present:
         mode = draw(st.sampled_from(["none", "superset"]))
     extra_pool = {
-        "int": [20, 21, -1], "negint": [100, -100], "bigint": [1, 2**41], "float": [99.5, -99.5], "floatint": [6.0, 3.5], "str": ["y", "z", "A"],
+        "int": [20, 21, -1], "negint": [100, -100], "bigint": [1, 2**41], "float": [99.5, -99.5], "floatint": [6.0, 3.5], "str": ["y", "z", "A"], "u1": [7, 100], "u8": [7, 100], "i2": [7, -100],
     }[kind]  # fmt: skip
     if mode != "none":
         if mode == "exact":
@@ -131,6 +131,7 @@ def reduce_cases(draw, tier="quick", funcs=FUNCS, nplans=3, allow_blockwise=True
         if plan not in plans:
             plans.append(plan)
     case["plans"] = plans
+    case["layout"] = draw(st.sampled_from([None, None, None, "F", "strided"]))
     return case
 
 
@@ -209,12 +210,12 @@ def plan_label(plan):
 
 def execute(case) -> Outcome:
     out = Outcome()
-    arr = dec(case["arr"])
-    by = dec(case["by"])
+    arr = relayout(dec(case["arr"]), case.get("layout"))
+    by = relayout(dec(case["by"]), case.get("layout"))
     func = case["func"]
     kw = reduce_kwargs(case)
     engine = case.get("engine")
-    out.label(f"func={func}", f"engine={engine}", f"dtype={arr.dtype.str}")
+    out.label(f"func={func}", f"engine={engine}", f"dtype={arr.dtype.str}", f"layout={case.get('layout')}")
     e = eager_reduce(arr, [by], kw, engine=engine)
     if not e.ok:
         out.label(f"eager-{e.kind}")
